@@ -94,17 +94,51 @@ def f_adapter_new(em, e, env, k):
 
 
 def m_adapter_write_fmt(em, e, rt, rty, env, k):
+    """`Adapter::new(closure).write_fmt(args)`: the TRANSLATED functions of fmt.rs (Generated/FmtFn.v, tools/gen_fn_fmt.py).
+    The closure value is the emitted code paired with the current values of the variables it captures (`&mut` borrows
+    of the caller's variables); afterwards those variables are rebound to what the closure left in the adapter"""
     cap = list(rty[1][1])
     if len(e.args) != 1:
         raise EmitError("write_fmt takes one argument")
 
     def k1(a, _t, env1):
-        st = em.fresh("st")
+        ad = em.fresh("ad")
         r = em.fresh("r")
         init = em.tuple_of([env1.get(n).coq for n in cap])
-        return "'(%s, %s) <- fmt_adapter_write_fmt %s %s %s ;;\n%s" % (
-            st, r, rt, init, a, em.unpack_state(cap, st, env1, lambda env2: k(r, res(UNIT), env2)))
+        return "'(%s, %s) <- g_adapter_write_fmt _ (g_adapter_new _ (%s, %s)) %s ;;\n%s" % (
+            ad, r, rt, init, a, em.unpack_state(cap, "(snd (fa_writer _ %s))" % ad, env1, lambda env2: k(r, res(UNIT), env2)))
     return em.expr(e.args[0], env, k1)
+
+
+# -- write_vectored: bufs.iter().find(|b| !b.is_empty()).map(|b| &**b).unwrap_or(&[][..]) -------------------------
+def pure_closure(em, e, elt, env, what):
+    """one-parameter closure without effects -> (Gallina function text, result type)"""
+    if len(e.args) != 1 or e.args[0].kind != "closure" or len(e.args[0].params) != 1:
+        raise EmitError("%s needs a one-parameter closure" % what)
+    cl = e.args[0]
+    p = cl.params[0][0]
+    while p.kind == "pref":
+        p = p.inner
+    if p.kind != "pident":
+        raise EmitError("%s: closure parameter pattern" % what)
+    c = em.fresh(p.name)
+    pr = em.try_pure(cl.body, env.bind(p.name, c, elt))
+    if pr is None:
+        raise EmitError("%s: the closure can panic or assigns a captured variable" % what)
+    return "(fun %s => %s)" % (c, pr[0]), pr[1]
+
+
+def m_list_find(em, e, rt, rty, env, k):
+    """`slice.iter().find(|x| pred)`: the first element that satisfies the predicate (Coq's List.find)"""
+    f, ty = pure_closure(em, e, rty[1], env, "Iterator::find")
+    if ty != ("bool",):
+        raise EmitError("Iterator::find: the closure does not answer a bool")
+    return k("(find %s %s)" % (f, rt), ("opt", rty[1]), env)
+
+
+def m_opt_map(em, e, rt, rty, env, k):
+    f, ty = pure_closure(em, e, rty[1], env, "Option::map")
+    return k("(option_map %s %s)" % (f, rt), ("opt", ty), env)
 
 
 # -- as_locked_write: the lock guard writes through to the writer it was taken from ----
@@ -114,7 +148,7 @@ def m_as_locked_write(em, e, rt, rty, env, k):
 
 VOCAB = {
     "result": {"err": "ekind"},
-    "type_alias": {"S": WRITER},
+    "type_alias": {"S": WRITER, "IoSlice": BYTES},
     "enums": {},
     "structs": {
         "StripBytes": {"coq": "sbytes", "var": "sb", "fields": {}, "check": False},
@@ -132,6 +166,8 @@ VOCAB = {
     "fuel": {"write": ["(S (length buf))"], "write_all": ["(S (length buf))"]},
     "fns": {"Adapter::new": f_adapter_new},
     "methods": {
+        ("list", "find"): m_list_find,
+        ("opt", "map"): m_opt_map,
         ("Piece", "len"): m_piece_len,
         ("Piece", "as_ptr"): m_piece_as_ptr,
         ("list", "as_ptr"): m_list_as_ptr,
@@ -148,26 +184,25 @@ VOCAB = {
 
 HEADER = "(* GENERATED by tools/gen_fn_stream.py (tools/rs2v) from crates/anstream/src/strip.rs -- do not edit *)"
 REQ = """From Coq Require Import NArith List Bool.
-From AV Require Import Generated.Table Spec.Io Model.Base Model.Imp Model.Utf8parse Model.Parser Model.Strip Model.Stream.
+From AV Require Import Generated.Table Spec.Io Model.Base Model.Imp Model.Utf8parse Model.Parser Model.Strip Model.Stream
+  Generated.FmtFn.
 Import ListNotations.
 Local Open Scope N_scope.
 Local Open Scope bool_scope."""
 
-# not translatable: modelled by hand, pinned by token hash
-PIN_WRITE_VECTORED = "4c2c6140858fd76f"
-PIN_ADAPTER_NEW = "856f405c1642d2d6"
-PIN_ADAPTER_WRITE_FMT = "bbcad76b79fd5228"
-PIN_ADAPTER_WRITE_STR = "c58742b90b00d3c8"
+# fmt.rs (Adapter::{new, write_fmt, write_str}) is translated by tools/gen_fn_fmt.py (Generated/FmtFn.v): the generated
+# write_fmt of strip.rs / wincon.rs CALLS g_adapter_new / g_adapter_write_fmt; the generators below read fmt.rs too, so
+# that tools/inventory.py and the checks see the dependency
 
 
 def register(generators, gm):
     def gen():
         try:
             src = gm.read("crates/anstream/src/strip.rs")
-            fmt = gm.read("crates/anstream/src/fmt.rs")
+            import gen_fn_fmt
+            gen_fn_fmt.fmt_shapes(gm.read("crates/anstream/src/fmt.rs"))      # a fmt.rs that does not translate is a GEN-ERROR here too
             v = dict(VOCAB)
             # iterator-adapter plumbing over IoSlice (find / map / unwrap_or): hand model first_nonempty
-            v["opaque"] = {"StripStream::write_vectored": PIN_WRITE_VECTORED}
             tr = {"trait": "Write"}
             out = translate(src, v, [
                 ("offset_to", None, "g_offset_to", {}),
@@ -178,12 +213,8 @@ def register(generators, gm):
                 ("flush", "StripStream", "g_ss_flush", tr),
                 ("write_all", "StripStream", "g_ss_write_all", tr),
                 ("write_fmt", "StripStream", "g_ss_write_fmt", tr),
+                ("write_vectored", "StripStream", "g_ss_write_vectored", tr),
             ], HEADER, REQ, {})
-            # std internals (core::fmt::write calling back into a `dyn fmt::Write`): hand model fmt_adapter_write_fmt
-            for name, pin in (("new", PIN_ADAPTER_NEW), ("write_fmt", PIN_ADAPTER_WRITE_FMT), ("write_str", PIN_ADAPTER_WRITE_STR)):
-                h = token_hash(fn_source(fmt, name, "Adapter"))
-                if h != pin:
-                    raise TranslateError("fmt::Adapter::%s changed (token hash %s, pinned %s): it is modelled by hand (fmt_adapter_write_fmt) and must be re-read" % (name, h, pin))
             return out + "\n"
         except TranslateError as e:
             raise gm.GenError(str(e))
@@ -261,7 +292,7 @@ WVOCAB = {
     "result": {"err": "ekind", "enum": "ErrorKind"},
     "loop_ret_state": True,
     "no_transparent": ["as_bytes"],
-    "type_alias": {"S": CONSOLE, "AnsiColor": ANSI},
+    "type_alias": {"S": CONSOLE, "AnsiColor": ANSI, "IoSlice": BYTES},
     "enums": {
         "Color": {"coq": "colour", "variants": {}, "payload": {"Ansi": ("CAnsi", [ANSI]), "Ansi256": ("CIdx", [ANSI]), "Rgb": ("CRgb", 3)}},
         "ErrorKind": {"coq": "ekind", "eqb": "ekind_eqb", "variants": {x: x for x in ("Interrupted", "WouldBlock", "Other", "WriteZero")}},
@@ -284,6 +315,8 @@ WVOCAB = {
         ("Style", "get_fg_color"): m_get_fg,
         ("Style", "get_bg_color"): m_get_bg,
         ("opt", "and_then"): m_opt_and_then,
+        ("list", "find"): m_list_find,
+        ("opt", "map"): m_opt_map,
         ("list", "as_bytes"): m_str_as_bytes,
         ("int", "into_ansi"): m_into_ansi,
         ("ErrorKind", "kind"): m_err_kind,
@@ -334,21 +367,20 @@ WV_CTOR = {
 WHEADER = "(* GENERATED by tools/gen_fn_stream.py (tools/rs2v) from crates/anstream/src/wincon.rs -- do not edit *)"
 WREQ = """From Coq Require Import NArith List Bool.
 From AV Require Import Generated.Table Spec.Utf8 Spec.Vt Spec.Sgr Spec.Io Model.Base Model.Imp Model.Utf8parse Model.Parser
-  Model.Strip Model.Wincon Model.Stream Model.WinconStream.
+  Model.Strip Model.Wincon Model.Stream Model.WinconStream Generated.FmtFn.
 Import ListNotations.
 Local Open Scope N_scope.
 Local Open Scope bool_scope."""
 
-PIN_WC_WRITE_VECTORED = "4c2c6140858fd76f"
 
 
 def register_wincon(generators, gm):
     def gen():
         try:
             src = gm.read("crates/anstream/src/wincon.rs")
-            fmt = gm.read("crates/anstream/src/fmt.rs")
+            import gen_fn_fmt
+            gen_fn_fmt.fmt_shapes(gm.read("crates/anstream/src/fmt.rs"))      # a fmt.rs that does not translate is a GEN-ERROR here too
             v = dict(WVOCAB)
-            v["opaque"] = {"WinconStream::write_vectored": PIN_WC_WRITE_VECTORED}
             tr = {"trait": "Write"}
             out = translate(src, v, [
                 ("cap_wincon_color", None, "g_cap_wincon_color", {}),
@@ -359,6 +391,7 @@ def register_wincon(generators, gm):
                 ("flush", "WinconStream", "g_wcs_flush", tr),
                 ("write_all", "WinconStream", "g_wcs_write_all", tr),
                 ("write_fmt", "WinconStream", "g_wcs_write_fmt", tr),
+                ("write_vectored", "WinconStream", "g_wcs_write_vectored", tr),
             ], WHEADER, WREQ, {})
             # the constructors / accessors: WinconStream::{new, into_inner, is_terminal, lock (Stdout), lock (Stderr)}
             out += "\n" + translate(src, WV_CTOR, [
@@ -368,10 +401,6 @@ def register_wincon(generators, gm):
                 ("lock", "WinconStream", "g_wcs_lock_stdout", {"target_arg": "Stdout", "key": "WinconStream::lock_stdout"}),
                 ("lock", "WinconStream", "g_wcs_lock_stderr", {"target_arg": "Stderr", "key": "WinconStream::lock_stderr"}),
             ], "", "", {})
-            for name, pin in (("new", PIN_ADAPTER_NEW), ("write_fmt", PIN_ADAPTER_WRITE_FMT), ("write_str", PIN_ADAPTER_WRITE_STR)):
-                h = token_hash(fn_source(fmt, name, "Adapter"))
-                if h != pin:
-                    raise TranslateError("fmt::Adapter::%s changed (token hash %s, pinned %s): it is modelled by hand (fmt_adapter_write_fmt) and must be re-read" % (name, h, pin))
             return out + "\n"
         except TranslateError as e:
             raise gm.GenError(str(e))
